@@ -242,7 +242,11 @@ def rule_6(ctx):
             ('""', T('')), ('"a"', T('a')), ('"A"', T('A')), ('"B"', T('B')), ('"1"', T('1')),
             ('"10"', T('10')), ('"9"', T('9')), ('"1.0"', T('1.0')), ('"007"', T('007')), ('"7"', T('7')), ('"1a"', T('1a')), ('"1e1"', T('1e1')),
             ('"ab"', T('ab')), ('"true"', T('true')),
-            ('FALSE', B(False)), ('TRUE', B(True)), ('blank', Rec(cls=XLT + 'Blank', value=None))]
+            ('FALSE', B(False)), ('TRUE', B(True)), ('blank', Rec(cls=XLT + 'Blank', value=None)),
+            # dates count as their serials - on both sides of the day Excel invented (serial 60)
+            ('1900-01-01', _D(1900, 1, 1)), ('1900-02-28', _D(1900, 2, 28)), ('1900-03-01', _D(1900, 3, 1)), ('2000-01-01', _D(2000, 1, 1)),
+            ('1', N(1)), ('59', N(59)), ('59.5', N(59.5)), ('60', N(60)), ('61', N(61)), ('36526', N(36526))]
+    serials = {'1900-01-01': 1, '1900-02-28': 59, '1900-03-01': 61, '2000-01-01': 36526}
     numeric_looking = {'"10"', '"9"', '"1.0"', '"007"', '"7"', '"1a"', '"1e1"', '"ab"', '"true"'}
     kind = {lbl: v.f['cls'].rpartition(':')[2] for lbl, v in vals}
     byl = dict(vals)
@@ -250,6 +254,8 @@ def rule_6(ctx):
     def key(lbl, other):
         if kind[lbl] == 'Blank':
             return {'Blank': (0, 0), 'Number': (0, 0), 'Text': (1, ''), 'Boolean': (2, 0)}[kind[other]]
+        if kind[lbl] == 'DateTime':
+            return (0, serials[lbl])
         v = byl[lbl].f['value']
         if kind[lbl] == 'Number':
             return (0, v)
@@ -264,6 +270,8 @@ def rule_6(ctx):
         for lb, b in vals:
             if kind[la] == 'Text' and kind[lb] != 'Text':
                 continue
+            if 'Blank' in (kind[la], kind[lb]) and 'DateTime' in (kind[la], kind[lb]):
+                continue        # DateTime.__Blank__: the known finding of C09.4
             if (la in numeric_looking or lb in numeric_looking) and not (kind[la] == 'Text' and kind[lb] == 'Text'):
                 continue        # the further texts are compared with texts (their place among the other classes is decided by "1", "a")
             for sym, fn in ops.items():
@@ -302,7 +310,7 @@ def rule_6(ctx):
             n += 1
             ctx.expect(not broken, anchor, f'order laws on the texts {a!r} and {b!r}',
                        f'on the texts {a!r} and {b!r} the operators give {r} (reversed: {back}); broken: {"; ".join(broken)} - the six operators are views of one total order')
-    ctx.floor(1800, 'comparison rows')
+    ctx.floor(2500, 'comparison rows')
 
 
 def rule_8(ctx):
